@@ -13,6 +13,11 @@ if st:
     print("refusing: /repo is not clean:\n" + st); sys.exit(2)
 subprocess.run(["git", "-C", "/repo", "apply", os.path.join(d, "patch.diff")], check=True)
 res = meta.setdefault("checks", {})
+import shutil, tempfile
+evdir = os.path.join(VERIF, "evidence")
+bak = tempfile.mkdtemp(prefix="evidence-bak-")
+for f in os.listdir(evdir):
+    shutil.copy(os.path.join(evdir, f), os.path.join(bak, f))
 try:
     for pid in pids:
         t0 = time.time()
@@ -35,4 +40,7 @@ try:
 finally:
     subprocess.run(["git", "-C", "/repo", "checkout", "--", "."], check=True)
     subprocess.run(["git", "-C", "/repo", "clean", "-fdq"], check=False)
+    for f in os.listdir(bak):          # evidence must come from the unchanged tree
+        shutil.copy(os.path.join(bak, f), os.path.join(evdir, f))
+    shutil.rmtree(bak, ignore_errors=True)
 json.dump(meta, open(os.path.join(d, "meta.json"), "w"), indent=1, ensure_ascii=False)
